@@ -144,7 +144,7 @@ class Last:
 
 
 def random_spec(rng: random.Random, *, variants=None, autos='random', mode=None, max_n=None, stacks='mixed',
-                boards=(1, 1, 1, 2), rake_p=0.15, ante_p=0.5, straddle_p=0.2, no_autos=(), via_phh=False, chips=None, force_boards0=None) -> dict:
+                boards=(1, 1, 1, 2), rake_p=0.15, ante_p=0.5, straddle_p=0.2, no_autos=(), via_phh=False, chips=None, force_boards0=None, single_forced=False) -> dict:
     v = rng.choice(variants or list(VARIANTS))
     fam = VARIANTS[v][2]
     kind = VARIANTS[v][1]
@@ -202,6 +202,9 @@ def random_spec(rng: random.Random, *, variants=None, autos='random', mode=None,
             trim = False
             if not any(antes):
                 antes[0] = 1
+    if single_forced:
+        # one forced bet in the whole hand (a lone big blind, a bring-in without antes): folded to, it is the whole 'pot'
+        antes, trim = [0] * n, False
     spec['antes'] = antes
     spec['trim'] = trim
     # blinds / bring-in
@@ -222,6 +225,8 @@ def random_spec(rng: random.Random, *, variants=None, autos='random', mode=None,
                 bl[j] = -2 * sb
         if rng.random() < 0.05:
             bl[0] = bl[1]                       # equal blinds
+        if single_forced:
+            bl = [0, 2 * sb] + [0] * (n - 2)
         spec['blinds'] = bl
         spec['bringin'] = 0
     spec['sb'] = small
